@@ -118,6 +118,17 @@ class Defn:
         cls = type("Gen" + ("C" if compiled else "P"), (VariablePayload,), ns)
         return vp_compile(cls) if compiled else cls
 
+    def build_defaults(self, defaults, compiled):
+        """the definition with a hand-written constructor giving `defaults` {name: value} to a suffix of the fields
+        (the way ipv8's own tests and users declare defaults on a VariablePayload)"""
+        from ipv8.messaging.lazy_payload import VariablePayload, vp_compile
+        params = ", ".join(n if n not in defaults else "%s=_d[%r]" % (n, n) for n in self.names)
+        g = {"_d": dict(defaults), "_VP": VariablePayload}
+        exec("def __init__(self, %s, **kwargs):\n    _VP.__init__(self, %s, **kwargs)\n" % (params, ", ".join(self.names)), g)
+        ns = {"format_list": list(self.formats), "names": list(self.names), "__init__": g["__init__"]}
+        cls = type("GenD" + ("C" if compiled else "P"), (VariablePayload,), ns)
+        return vp_compile(cls) if compiled else cls
+
     def tags(self, table):
         out = []
         for f in self.formats:
@@ -371,6 +382,71 @@ def run(ctx):
                         ctx.violation("%s/keyword-construction" % label, "keyword construction differs", case)
                 except Exception as e:   # noqa
                     ctx.violation("%s/raises" % label, "%s form raises %s: %s" % (label, type(e).__name__, str(e)[:100]), case)
+    # ---- defaults: omitted arguments take the declared default of *their own* field in every form
+    ndefcase = 0
+    for d, shipped_cls in defs:
+        if shipped_cls is not None or "bits" in d.formats or d.hooks or len(d.names) < 2:
+            continue
+        fmts = wire.class_fmts(d.build_plain(False), reg)
+        for rep in range(2 if ctx.quick else 6):
+            ndef = r.randrange(1, len(d.names) + 1)
+            full = [wire.gen_value(r, f, keys, 1, gen_class) for f in fmts]
+            dvals = [wire.gen_value(r, f, keys, 1, gen_class) for f in fmts]
+            defaults = {n: dvals[j] for j, n in enumerate(d.names) if j >= len(d.names) - ndef}
+            try:
+                P, C = d.build_defaults(defaults, False), d.build_defaults(defaults, True)
+            except Exception as e:   # noqa
+                ctx.violation("vp_compile-fails", "%s: %s" % (type(e).__name__, e),
+                              {"kind": "defaults", "formats": [str(f) for f in d.formats], "defaults": repr(defaults)[:400]})
+                continue
+            D = None
+            if all(isinstance(v, (int, float, bytes, str, tuple)) for v in defaults.values()):
+                ann = {}
+                for n, f in zip(d.names, d.formats):
+                    ann[n] = type_from_format(f) if isinstance(f, str) else (typing.List[f[0]] if isinstance(f, list) else f)
+                try:
+                    D = dataclasses.dataclass(type("GenDF", (DataClassPayload,), {"__annotations__": ann, "__module__": __name__, **defaults}))
+                except Exception as e:   # noqa
+                    ctx.violation("dataclass-fails", "%s: %s" % (type(e).__name__, e),
+                                  {"kind": "defaults", "formats": [str(f) for f in d.formats], "defaults": repr(defaults)[:400]})
+            for m in sorted({1, ndef, r.randrange(1, ndef + 1)}):
+                given = full[:len(d.names) - m]
+                omit_kw = set(r.sample(list(defaults), m))
+                kw = {n: v for n, v in zip(d.names, full) if n not in omit_kw}
+                case = {"kind": "defaults", "formats": [str(f) for f in d.formats], "names": d.names,
+                        "defaults": repr(defaults)[:500], "positional": repr(given)[:400], "omitted_by_keyword": sorted(omit_kw)}
+                ndefcase += 1
+                ctx.count(("dflt", d.label, repr(defaults)[:200], m, tuple(sorted(omit_kw))), nontrivial=True)
+                for how, mk in (("positional", lambda K: K(*given)), ("keyword", lambda K: K(**kw))):
+                    try:
+                        p = mk(P)
+                    except Exception:   # noqa
+                        continue
+                    fp = c02.fields(p)
+                    try:
+                        bp = ser.pack_serializable(p)
+                    except Exception:   # noqa
+                        bp = None
+                    for label, K in [("compiled", C)] + ([("dataclass", D)] if D is not None else []):
+                        for alloc in range(2):      # the dataclass form regenerates its constructor on allocation
+                            try:
+                                k = mk(K)
+                                if c02.fields(k) != fp:
+                                    ctx.violation("%s/default-differs" % label,
+                                                  "%s form, %s construction with omitted arguments: fields %s, the plain definition gives %s" % (
+                                                      label, how, repr(c02.fields(k))[:200], repr(fp)[:200]), case)
+                                    break
+                                if bp is not None and ser.pack_serializable(k) != bp:
+                                    ctx.violation("%s/default-bytes-differ" % label, "%s form with defaulted fields encodes differently" % label, case)
+                                    break
+                                if bp is not None:
+                                    ser.unpack_serializable(K, bp)
+                            except Exception as e:   # noqa
+                                ctx.violation("%s/default-raises" % label, "%s form, %s construction with omitted arguments raises %s: %s" % (
+                                    label, how, type(e).__name__, str(e)[:100]), case)
+                                break
+    ctx.extra["default_cases"] = ndefcase
+
     # dataclass with defaults of every literal kind
     for v in default_kinds:
         if isinstance(v, (list, tuple)):
